@@ -83,9 +83,9 @@ def h_step(x, bk, n):
         be.close()
 
 
-def h_stream(x, bk, k, recreated=False):
+def h_stream(x, bk, k, recreated=False, dmax=ST.D_MAX_US):
     p = x.zint("p", 0, P_MAX_US)
-    hbs = ST.sym_rows(x, "h", k, ids=False)
+    hbs = ST.sym_rows(x, "h", k, ids=False, dmax=dmax)
     for i in range(k - 1):
         x.assume(hbs[i].start < hbs[i + 1].start)
         x.assume(hbs[i].end <= hbs[i + 1].end)
@@ -123,6 +123,7 @@ def harnesses(tier):
         for n in ([0, 1, 2] if tier == "quick" else [0, 1, 2, 3]):
             hs.append((Harness(PROP, "%s-step-r%d" % (bk, n), h_step, dict(bk=bk, n=n), "%s: one heartbeat into a bucket holding a reduced stream of %d events (+2 events in another bucket)" % (bk, n), split_depth=6), 1800))
         hs.append((Harness(PROP, "%s-stream-k2-recreated-bucket" % bk, h_stream, dict(bk=bk, k=2, recreated=True), "%s: 2 heartbeats into a bucket whose id was deleted and re-created on the same store object" % bk, split_depth=7), 1800))
+        hs.append((Harness(PROP, "%s-stream-k2-long-durations" % bk, h_stream, dict(bk=bk, k=2, dmax=30 * ST.D_MAX_US), "%s: 2 heartbeats whose own durations range up to 30 days" % bk, split_depth=7), 1800))
         for k in ([2, 3] if tier == "quick" else [2, 3, 4]):
             hs.append((Harness(PROP, "%s-stream-k%d" % (bk, k), h_stream, dict(bk=bk, k=k), "%s: stream of %d heartbeats from the empty bucket" % (bk, k), split_depth=7), 3600))
     return hs
@@ -137,7 +138,8 @@ def meta(chk, tier):
         "instants ms-aligned, durations any us in [0, 24 h] (zero-length and tied ends included), data tag in 0..2, pulsetime any us in [0, 1e12]",
     ]
     chk.stubs = ["as C02 and C08"]
-    chk.assumptions = ["peewee backend not covered by this check yet"]
+    chk.bounds.append("streams of 2 heartbeats with durations up to 30 days")
+    chk.assumptions = []
 
 
 def main(tier, seed, args):
